@@ -168,6 +168,37 @@ theorem C11_order :
     evalDuck envW (pipeline (.trim pS)) = .text (s "q\"u") ∧ evalSpec envW (.trim pS) = .text (s "q\"u") := by
   decide
 
+/-- **`f.value` of a LATERAL FLATTEN converted to text** (`f.value::varchar`, `TRIM(f.value)`): for every element, the
+    string loses its JSON quotes — TRIM because `trim_cast_varchar` runs first and inserts the cast that
+    `flatten_value_cast_as_varchar` then turns into `F.VALUE ->> '$'` -/
+theorem C11_flatten_value_text (doc : Env) :
+    evalDuck doc (pipelineAll (.cast .fval .text)) = evalSpec doc (.cast .fval .text) ∧
+    evalDuck doc (pipelineAll (.trim .fval)) = evalSpec doc (.trim .fval) := by
+  have h1 : pipelineAll (.cast .fval .text) = .jxs .fval (.path []) := by decide
+  have h2 : pipelineAll (.trim .fval) = .trim (.jxs .fval (.path [])) := by decide
+  rw [h1, h2]
+  obtain ⟨d, pj⟩ := doc
+  cases d <;> simp [evalDuck, evalSpec, arrow2, arrow, scalarOf, ofOpt, PathLit.parse, navDuck, specCast, specText, duckText, mapText, textOf]
+
+/-- **Third order constraint** (undocumented in cursor.py): `flatten_value_cast_as_varchar` must run AFTER
+    `trim_cast_varchar`; ahead of it, TRIM(f.value) of the element `" pad "` keeps the JSON spelling -/
+theorem C11_order_flatten_value :
+    let env : Env := { doc := .str " pad ".toList }
+    evalDuck env (pipelineFlattenEarly (.trim .fval)) = .text "\" pad \"".toList ∧
+    evalDuck env (pipelineAll (.trim .fval)) = .text "pad".toList ∧ evalSpec env (.trim .fval) = .text "pad".toList := by
+  decide
+
+/-- (C11/text-of-non-path-variant-keeps-quotes also covers UPPER/LOWER directly on `f.value`) -/
+theorem finding_flatten_value_upper :
+    let env : Env := { doc := .str "x".toList }
+    evalDuck env (pipelineAll (.upper .fval)) = .text "\"X\"".toList ∧ evalSpec env (.upper .fval) = .text "X".toList := by
+  decide
+
+/-- C11/flatten-outer-ignored — FLATTEN(…, OUTER => TRUE) over an empty/missing array: documented one row with NULL,
+    the rewrite ignores the argument and yields no row -/
+theorem finding_flatten_outer_ignored :
+    flattenImpl (.json (.arr .nil)) = .ok [] ∧ flattenOuterSpec (.json (.arr .nil)) = .ok [.null] := ⟨rfl, rfl⟩
+
 /-! ### Findings on the pinned tree (each is a `known:` entry; the envelope excludes exactly these) -/
 
 /-- C11/array-size-empty — ARRAY_SIZE of an empty array is NULL, not 0 (the CASE trick) -/
